@@ -402,6 +402,20 @@ pub fn small_case(rng: &mut Rng, variant: Variant, kind: MatchKind, miri: bool) 
     if !miri && rng.below(400) == 0 {
         return long_case(rng, variant, kind);
     }
+    if !miri && variant == Variant::Bytewise && rng.below(150) == 0 {
+        return hub_case(rng, kind);
+    }
+    if !miri && variant == Variant::Bytewise && rng.below(150) == 0 {
+        let (r, c, e) = (rng.range(248, 256), rng.range(248, 256), rng.range(0, 3));
+        let n = *rng.pick(&[None, Some(1u32), Some(2), Some(64)]);
+        return dense_case(rng, kind, r, c, e, n);
+    }
+    if !miri && rng.below(300) == 0 {
+        // random point of the chain-length sweep (C10 runs the sweep systematically)
+        let len = rng.range(250, 1300);
+        let n = *rng.pick(&[None, Some(1u32), Some(2)]);
+        return chain_case(rng, variant, kind, len, n);
+    }
     let (alpha, workload) = match variant {
         Variant::Bytewise => match rng.below(10) {
             0..=3 => (Alpha::Binary, "W2-binary"),
@@ -504,9 +518,13 @@ pub fn many_patterns_case(rng: &mut Rng, variant: Variant, kind: MatchKind) -> C
         }
     };
     let mut pats: Vec<Vec<u8>> = Vec::with_capacity(alpha.len() * alpha.len() + 3000);
+    // half of the time every 2-symbol pattern is preceded by one common symbol, so that a single
+    // symbol occurs more than 65 536 times in the pattern set
+    let common: Option<Sym> = if rng.chance(1, 2) { Some(rng.pick(&alpha).clone()) } else { None };
     for a in &alpha {
         for b in &alpha {
-            let mut p = a.clone();
+            let mut p = common.clone().unwrap_or_default();
+            p.extend_from_slice(a);
             p.extend_from_slice(b);
             pats.push(p);
         }
@@ -555,6 +573,170 @@ pub fn many_patterns_case(rng: &mut Rng, variant: Variant, kind: MatchKind) -> C
         haystacks: hays,
         utf8: variant == Variant::Charwise,
         workload: "W11-more-than-65536-patterns",
+    }
+}
+
+/// W12a: one non-branching chain of exactly `len` symbols (unit repeated), optionally with a
+/// prefix pattern — fills double-array blocks with single-child states. Used as a deterministic
+/// sweep over every length around the block-size multiples.
+pub fn chain_case(rng: &mut Rng, variant: Variant, kind: MatchKind, len: usize, nfb: Option<u32>) -> Case {
+    let akind = match variant {
+        Variant::Bytewise => *rng.pick(&[Alpha::Ascii, Alpha::Binary]),
+        Variant::Charwise => *rng.pick(&[Alpha::Ascii, Alpha::Utf8Low]),
+    };
+    let alpha = alphabet(rng, akind, 3);
+    let unit: Vec<Sym> = (0..rng.range(1, 2)).map(|_| rng.pick(&alpha).clone()).collect();
+    let long: Vec<Sym> = (0..len).map(|i| unit[i % unit.len()].clone()).collect();
+    let mut pats = vec![concat(&long)];
+    if rng.chance(1, 4) {
+        pats.push(concat(&long[..rng.range(1, len - 1)]));
+    }
+    let mut h = concat(&long);
+    h.extend(concat(&long[..len / 3]));
+    let n = pats.len();
+    Case {
+        spec: Spec { variant, kind, nfb, entry: Entry::New },
+        patterns: pats,
+        values: (0..n as u32).collect(),
+        haystacks: vec![h],
+        utf8: akind != Alpha::Binary,
+        workload: "W12-chain-length-sweep",
+    }
+}
+
+/// W12b (byte-wise): "hub" states with 253..=256 children, next to patterns containing 0x00/0x01,
+/// with small num_free_blocks: blocks are filled to the last slot, first slots of blocks stay
+/// vacant, BASE values sit on block boundaries.
+pub fn hub_case(rng: &mut Rng, kind: MatchKind) -> Case {
+    let n_hubs = rng.range(1, 4);
+    let mut pats: Vec<Vec<u8>> = Vec::new();
+    let mut seen: HashSet<Vec<u8>> = HashSet::new();
+    let mut hubs: Vec<Vec<u8>> = Vec::new();
+    for _ in 0..n_hubs {
+        let hub: Vec<u8> = (0..rng.range(1, 2)).map(|_| *rng.pick(&[b'y', b'z', 0x02u8, 0xFFu8, b'd'])).collect();
+        let missing: Vec<u8> = match rng.below(4) {
+            0 => vec![],
+            1 => vec![0x00],
+            2 => vec![0x00, 0x01],
+            _ => vec![rng.below(256) as u8, 0x00],
+        };
+        for b in 0u32..256 {
+            let b = b as u8;
+            if missing.contains(&b) {
+                continue;
+            }
+            let mut p = hub.clone();
+            p.push(b);
+            if seen.insert(p.clone()) {
+                pats.push(p);
+            }
+        }
+        hubs.push(hub);
+    }
+    for extra in [vec![0x00u8], vec![0x01u8], vec![0x00, 0x00], vec![0x00, b'y']] {
+        if rng.chance(1, 2) && seen.insert(extra.clone()) {
+            pats.push(extra);
+        }
+    }
+    if rng.chance(1, 2) {
+        // some third-level states so that later blocks get opened by non-root states
+        for _ in 0..rng.range(1, 300) {
+            let mut p = rng.pick(&hubs).clone();
+            p.push(rng.below(256) as u8);
+            p.push(*rng.pick(&[0x00u8, 0x01, b'a', 0xFF]));
+            if seen.insert(p.clone()) {
+                pats.push(p);
+            }
+        }
+    }
+    if rng.chance(1, 2) {
+        rng.shuffle(&mut pats);
+    }
+    let mut hays = Vec::new();
+    for _ in 0..4 {
+        let mut h = Vec::new();
+        for _ in 0..rng.range(1, 12) {
+            let hb: &Vec<u8> = rng.pick(&hubs);
+            h.extend_from_slice(hb);
+            match rng.below(4) {
+                0 => h.push(0x00),
+                1 => h.extend_from_slice(&[0x00, 0x00]),
+                2 => h.push(rng.below(256) as u8),
+                _ => h.extend_from_slice(&[rng.below(256) as u8, 0x00]),
+            }
+        }
+        hays.push(h);
+    }
+    let entry = if rng.chance(1, 2) { Entry::New } else { Entry::WithValues };
+    let vals = match entry {
+        Entry::New => (0..pats.len() as u32).collect(),
+        Entry::WithValues => values(rng, pats.len()),
+    };
+    Case {
+        spec: Spec { variant: Variant::Bytewise, kind, nfb: Some(*rng.pick(&[1u32, 2, 2, 3, 4, 5, 16, 64])), entry },
+        patterns: pats,
+        values: vals,
+        haystacks: hays,
+        utf8: false,
+        workload: "W12-hub-states",
+    }
+}
+
+/// W12c (byte-wise): dense two-level layouts whose state count is swept around exact multiples of
+/// the block size: `r` single-byte patterns, a hub `[a]` with `c` children, and a few 2-byte extras
+/// with small labels. Some parameter combinations fill every block to the last slot.
+pub fn dense_case(rng: &mut Rng, kind: MatchKind, r: usize, c: usize, extras: usize, nfb: Option<u32>) -> Case {
+    let pick_set = |rng: &mut Rng, n: usize| -> Vec<u8> {
+        let n = n.min(256);
+        let mut all: Vec<u8> = (0u32..256).map(|b| b as u8).collect();
+        match rng.below(3) {
+            0 => {}
+            1 => all.reverse(),
+            _ => rng.shuffle(&mut all),
+        }
+        all.truncate(n);
+        all
+    };
+    let mut pats: Vec<Vec<u8>> = Vec::new();
+    let mut seen: HashSet<Vec<u8>> = HashSet::new();
+    for b in pick_set(rng, r) {
+        if seen.insert(vec![b]) {
+            pats.push(vec![b]);
+        }
+    }
+    let a = *rng.pick(&[0u8, 2, 255, b'a']);
+    for b in pick_set(rng, c) {
+        if seen.insert(vec![a, b]) {
+            pats.push(vec![a, b]);
+        }
+    }
+    let pool: [[u8; 2]; 6] = [[2, 3], [0, 1], [1, 0], [3, 2], [2, 0], [254, 255]];
+    for _ in 0..extras {
+        let e = rng.pick(&pool).to_vec();
+        if seen.insert(e.clone()) {
+            pats.push(e);
+        }
+    }
+    if rng.chance(1, 2) {
+        rng.shuffle(&mut pats);
+    }
+    let mut hays = Vec::new();
+    let mut h = Vec::new();
+    for _ in 0..rng.range(4, 40) {
+        h.push(*rng.pick(&[a, 2, 3, 0, 1, 255]));
+        h.push(*rng.pick(&[0u8, 0, 1, 3, 2, 255]));
+    }
+    hays.push(h);
+    hays.push(vec![2, 0, 3, 0, a, 0, 0, 1, 0]);
+    let n = pats.len();
+    let entry = if rng.chance(1, 2) { Entry::New } else { Entry::WithValues };
+    Case {
+        spec: Spec { variant: Variant::Bytewise, kind, nfb, entry },
+        values: if entry == Entry::New { (0..n as u32).collect() } else { values(rng, n) },
+        patterns: pats,
+        haystacks: hays,
+        utf8: false,
+        workload: "W12-dense-block-fill-sweep",
     }
 }
 
